@@ -36,7 +36,7 @@ CHECKS = {
  "C08": ("enumerator", "exhaustive enumeration of all 2^w bit patterns per data field (w<=30 quick, w<=32 thorough) with a decode->encode identity oracle through an own bit reader/writer (hook)",
          "Exhaustive for every field up to the width bound (quick 30 bits: 266 of 309 fields, thorough 32 bits: 300 of 309 fields); boundary windows, one-hot and large random samples for wider fields backed by the error-bound argument in DESIGN.md; hand-written bias codecs enumerated completely through frames.",
          "needs the hook; the list of sign-magnitude fields is pinned from the standard", "§3 C08"),
- "C11": ("sampler", "stratified generation of real inputs between adjacent grid points per float field, oracle = neighbour membership + half-step bound with derived float slack + monotonicity (hook)",
+ "C11": ("sampler", "stratified generation of real inputs between adjacent grid points per float field, oracle = neighbour membership + half-step bound with derived float slack + monotonicity (hook); bias lists in arbitrary caller order through messages",
          "Generated-input exploration over all float-typed fields: grid indexes at range ends, zero, powers of two and random; 16 interpolation points per interval including both sides of the half step. Tolerance derived from the rounding steps, not tuned.",
          "needs the hook; grid = decoder image of consecutive patterns", "§3 C11"),
  "C02": ("generators+enumerator", "structure-aware frame generation (golden, the crate's generator, synthesiser incl. hostile MSM/bias/text/count structures, havoc mutation) with a totality/finiteness oracle in catch_unwind, both build profiles",
@@ -48,22 +48,22 @@ CHECKS = {
  "C01": ("proptest+generators", "property-based testing (proptest recipes over the serde value tree, shrinking) for the encoder side + structure-aware frame generators for the decoder side; oracle = round trip / normal form / fixed point",
          "Generated-input exploration over all supported types: (A) accepted messages decode to their own variant and re-encode byte-identically under the stated precondition (evaluated on the input), (B) decoded messages accepted by the encoder are fixed points up to 1059/1065 group order.",
          "precondition predicate uses SSR signal tables pinned in the harness; only decoded messages are compared with ==", "§3 C01"),
- "C12": ("proptest", "stateful property-based testing (proptest): generated build-call histories over a pool of messages, fresh-builder differential at every step, shrinking of the history",
-         "Model-based exploration of builder histories: pool of ~2600 messages (every type, every list filled to capacity, refused-early and refused-late messages), histories of up to 12 calls plus target; the reused builder must match a fresh builder at every step.",
+ "C12": ("proptest", "stateful property-based testing (proptest): generated build-call histories over a pool of messages, fresh-builder differential at every step, shrinking of the history; systematic sandwich [T,U,T], retry and residue-probe histories; thorough tier adds a coverage-guided libFuzzer target (builder_history) with the same oracle",
+         "Model-based exploration of builder histories: pool of ~2600 messages (every type, every list filled to capacity, refused-early and refused-late messages), histories of up to 12 calls plus target (half of them with the target or a same-type neighbour also earlier in the history), every accepted message sandwiched around every refused one; the reused builder must match a fresh builder at every step.",
          "error kinds not compared", "§3 C12"),
  "C20": ("proptest+generators", "property-based testing (proptest recipes, shrinking) + decoded generated frames; oracle = serialize/deserialize identity through an own self-describing value model and serde_json::Value",
          "Generated-input exploration over all supported types plus the wire-less variants; exact in-memory data models (no text format).",
          "NaN-carrying messages are outside the property", "§3 C20"),
- "C10": ("enumerator+sampler", "exhaustive small scopes + random shapes of (S,G,C) with a bit-level standard-layout model as oracle, permutation metamorphic relation, single-defect error-class table",
+ "C10": ("enumerator+sampler", "exhaustive small scopes + random shapes of (S,G,C) with a bit-level standard-layout model as oracle, permutation metamorphic relation, single-defect error-class table; thorough tier adds a coverage-guided libFuzzer target (msm_masks) with the same oracle",
          "Generated-input exploration over all 49 MSM types: small scopes enumerated completely, random shapes up to 64 cells; the encoder's frame must equal a frame laid out by an independent model of the standard whatever the input order; each invalid class must give its own error.",
          "MSM layouts and signal tables pinned in the harness from the standard", "§3 C10"),
  "C15": ("enumerator", "enumeration of every (type, n<=capacity), every over-capacity count value and every truncation length; oracle = wire count via pinned layout + round-trip equality + Corrupt",
          "Enumeration, complete over element counts, over-capacity count values and truncation lengths for 39 list/string-bearing types; element contents sampled from decoded vectors.",
          "count-field layouts pinned in the harness", "§3 C15"),
- "C16": ("sampler", "typed generation of bias lists (distinct pairs scattered, 1..64 satellites, up to 390 entries, on/off grid) with a multiset/grouping oracle, plus hostile frames with a capacity oracle",
+ "C16": ("sampler", "typed generation of bias lists (distinct pairs scattered, 1..64 satellites, up to 390 entries, on/off grid) with a multiset/grouping oracle, plus hostile frames with a capacity oracle; thorough tier adds a coverage-guided libFuzzer target (bias_lists) with the same oracle",
          "Generated-input exploration of the three hand-written bias list codecs under and outside the stated precondition; bias grid taken from the decoder's image of all patterns.",
          "SSR signal tables pinned in the harness", "§3 C16"),
- "C17": ("proptest", "property-based testing (proptest string strategies with shrinking) against reference char/byte mappings, message round trips and 1029 frames with arbitrary text bytes",
+ "C17": ("proptest", "property-based testing (proptest string strategies with shrinking) against reference char/byte mappings, message round trips and 1029 frames with arbitrary text bytes; thorough tier adds a coverage-guided libFuzzer target (text_fields) with the same oracles",
          "Generated-input exploration over Unicode strings clustered around the capacities, util types for several N, all descriptor-bearing messages and 1029.",
          "reference mapping computed with std primitives", "§3 C17"),
  "C18": ("enumerator", "exhaustive enumeration of descriptors (7 x 256 bands x 256 Latin-1 attributes) and of all recognised triples against a pinned standard table, wire observation through one-cell MSM1 messages",
@@ -94,7 +94,7 @@ man = {
     "kind_free_text": "Rust harness (path dependency on /repo): proptest 1.11 used as a library (sharded runners, fixed seeds, shrinking), exhaustive/seeded enumerators on rayon, independent reference models (CRC-24Q, bit reader/writer, frame predicate, stream scanner, serde value tree)"},
  ],
  "checks": [],
- "notes": "All commands run from /verif. ./run <id> quick|thorough rebuilds the harness against /repo's working tree with the hook cfg on (cargo fingerprints the path dependency), replays the saved failing inputs of earlier findings (regressions/<id>/), runs the generated-input check and, in the thorough tier, the libFuzzer campaigns (fuzz/campaign). VERIF_SEED seeds every generator. Exit 0 held, 1 VIOLATION line printed, 2 infrastructure/inconclusive (build failure, watchdog, non-reproducing fuzz artefact) - never a violation. known_findings.txt: nine findings, all fixed in /repo by fix: commits, none open. seeded/: 40 independently written changes that break a property while passing the test suite, with the checks that catch them (DESIGN.md section 10); ./run_noevidence is the evidence-free runner used with them.",
+ "notes": "All commands run from /verif. ./run <id> quick|thorough rebuilds the harness against /repo's working tree with the hook cfg on (cargo fingerprints the path dependency), replays the saved failing inputs of earlier findings (regressions/<id>/), runs the generated-input check and, in the thorough tier, the libFuzzer campaigns (fuzz/campaign). VERIF_SEED seeds every generator. Exit 0 held, 1 VIOLATION line printed, 2 infrastructure/inconclusive (build failure, watchdog, non-reproducing fuzz artefact) - never a violation. known_findings.txt: nine findings, all fixed in /repo by fix: commits, none open. seeded/: about a hundred independently written changes (five rounds) that break a property while passing the test suite, with the checks that catch them (DESIGN.md section 10); ./run_noevidence is the evidence-free runner used with them.",
  "not_applicable": [],
 }
 for cid in sorted(CHECKS):
